@@ -11,6 +11,20 @@ func checkStoreLog(st *vStore) {
 		}
 	}
 	verifAssert("C08.same-name-same-bytes", !st.conflict)
+	// child names embedded in written bytes are names under which a node was written
+	closed := true
+	for i := range st.blobs {
+		_, _, links, ok := refDecode(st.blobs[i])
+		if !ok {
+			continue
+		}
+		for _, l := range links {
+			if l != "" {
+				closed = verifAnd(closed, memberTerm(l, st.names))
+			}
+		}
+	}
+	verifAssert("C08.child-names-are-names-of-written-nodes", closed)
 }
 
 // C08: every Store call in every history is content-addressed and canonically encoded.
@@ -34,6 +48,9 @@ func HarnessC08a() {
 		return
 	}
 	checkStoreLog(st)
+	if r1.Link != nil {
+		verifAssert("C08.root-name-is-name-of-a-written-node", memberTerm(*r1.Link, st.names))
+	}
 	// re-encoding: reload, persist again without touching anything -> same root name, nothing new
 	n0 := len(st.names)
 	t2, err := r1.LoadMast(vctx, cfg)
